@@ -122,7 +122,9 @@ class FailureMonitor(Monitor):
             t_loss, lost = self.stop_watch[app_name]
             _t, ridx, rinc, _m = self.user_stops[app_name]
             # by the same Master, outside a re-distribution (a new Master restarts failed applications, as documented)
-            if w.now - t_loss <= 90 and (inst.idx, inst.incarnation) == (ridx, rinc) \
+            # (and not the deferred repair of a child crash of that application that took place around the stop request)
+            crashed = any(e['kind'] in ('exit', 'exit-other') and e['time'] >= _t - 10 for e in self.events.get(app_name, []))
+            if w.now - t_loss <= 90 and (inst.idx, inst.incarnation) == (ridx, rinc) and not crashed \
                     and not any(d >= t_loss for d in self.distributions):
                 self.findings.append(('process-with-planned-stop-also-repaired', f't={w.now} {inst.nick} requests the start '
                                       f'of {namespec} on {identifier} although {app_name} was being stopped by the Master '
